@@ -566,4 +566,16 @@ def MFR.run (m : MFR α) : List MOp → List (Option (List α)) × MFR α
   | [] => ([], m)
   | op :: ops => (((m.step op).1 :: ((m.step op).2.run ops).1), ((m.step op).2.run ops).2)
 
+/-- the reference for MultiFileReader: ONE file holding the concatenation of the members -/
+def MFR.specStep (f : File α) : MOp → Option (List α) × File α
+  | .read 0 => (some f.readAll.1, f.readAll.2)
+  | .read (n + 1) => (some (f.readN (n + 1)).1, (f.readN (n + 1)).2)
+  | .readAll => (some f.readAll.1, f.readAll.2)
+  | .seek0 => (none, f.seek 0)
+
+def MFR.specRun (f : File α) : List MOp → List (Option (List α)) × File α
+  | [] => ([], f)
+  | op :: ops => (((MFR.specStep f op).1 :: (MFR.specRun (MFR.specStep f op).2 ops).1),
+                  (MFR.specRun (MFR.specStep f op).2 ops).2)
+
 end C18
